@@ -265,9 +265,21 @@ func VerifC17JournalHostile() {
 		}
 		j = append(j, tail...)
 	}
+	// the journal may also be cut off inside its header sector (SQLite then plays nothing back and leaves
+	// the database alone, whatever the header fields say)
+	headerCut := 0
+	if sector == 512 && nrecs == 0 {
+		headerCut = []int{0, 28, 100}[rt.Choose("header.cut", 3)]
+		if headerCut > 0 {
+			j = j[:headerCut]
+		}
+	}
 	must(os.WriteFile(db.JournalPath(), j, 0o666))
 	// an error is acceptable for garbage; a panic, a hang or a stray write is not
 	rt.NoHang(3000, func() { _ = db.Recover(ctx) })
+	if headerCut > 0 {
+		verifC01CheckImage(w, img0, "a journal cut off inside its header sector changes nothing: no page is restored and the database keeps its size")
+	}
 	limit := int64(n0)
 	if int64(dbSize) > limit {
 		limit = int64(dbSize)
